@@ -23,14 +23,20 @@ def path_of(t):
         elif op in ("deref", "refv", "conv"):
             t = t.args[0]
         elif op == "peeked":
+            # the element an un-advanced iterator stands on: the first element
             parts.append("first")
             t = t.args[0]
+            while t.op in ("refv", "deref"):
+                t = t.args[0]
+            if t.op == "elem":
+                t = t.args[0]
         elif op == "elem":
             parts.append("*")
             t = t.args[0]
         elif op == "index":
             i = t.args[1]
-            parts.append(str(i.args[0]) if is_t(i) and i.op == "int" else "*")
+            k = i.args[0] if is_t(i) and i.op == "int" else None
+            parts.append("first" if k == 0 else (str(k) if k is not None else "*"))
             t = t.args[0]
         elif op == "iter":
             t = t.args[0]
